@@ -90,9 +90,33 @@ func isErrorReturn(b *ssa.BasicBlock) (*ssa.Return, bool) {
 func overflowEdge(cond ssa.Value, pol bool) bool {
 	switch c := cond.(type) {
 	case *ssa.Extract:
-		if call, ok := c.Tuple.(*ssa.Call); ok && c.Index == 1 && pol {
-			if f := call.Call.StaticCallee(); f != nil && f.Name() == "Uint64WithOverflow" {
+		if call, ok := c.Tuple.(*ssa.Call); ok && pol {
+			f := call.Call.StaticCallee()
+			if f != nil && f.Name() == "Uint64WithOverflow" && c.Index == 1 {
 				return true
+			}
+			// a fork helper that hands the overflow flag through as one of its results
+			if f != nil && isForkPkg(f.Pkg) && f.Blocks != nil {
+				all, n := true, 0
+				for _, b := range f.Blocks {
+					ret, isRet := b.Instrs[len(b.Instrs)-1].(*ssa.Return)
+					if !isRet || c.Index >= len(ret.Results) {
+						continue
+					}
+					n++
+					ex, isEx := ret.Results[c.Index].(*ssa.Extract)
+					if !isEx || ex.Index != 1 {
+						all = false
+						continue
+					}
+					c2, isCall := ex.Tuple.(*ssa.Call)
+					if !isCall || c2.Call.StaticCallee() == nil || c2.Call.StaticCallee().Name() != "Uint64WithOverflow" {
+						all = false
+					}
+				}
+				if all && n > 0 {
+					return true
+				}
 			}
 		}
 	case *ssa.UnOp:
